@@ -55,7 +55,7 @@ func fieldAddrOf(fa *ssa.FieldAddr, tname, field string) (ssa.Value, bool) {
 	if !ok {
 		return nil, false
 	}
-	named, _ := pt.Elem().(*types.Named)
+	named, _ := types.Unalias(pt.Elem()).(*types.Named)
 	st, _ := pt.Elem().Underlying().(*types.Struct)
 	if named == nil || st == nil || named.Obj().Name() != tname {
 		return nil, false
